@@ -145,6 +145,11 @@ fn alphabet(k: &K, s: &Store, reduced: bool) -> Vec<Adm> {
             }
         }
         let own = if bl == "KA" { 5 } else { 6 };
+        // entries naming the bank's own tag (tags are shared by families of banks: the entry applies to the collateral of
+        // every other bank carrying it, whatever this bank's own asset weights are)
+        for (n, a, b) in [("0.5/0.5", frac(1, 2), frac(1, 2)), ("0.95/0.5", frac(95, 100), frac(1, 2)), ("0.5/0.95", frac(1, 2), frac(95, 100)), ("1/1", one(), one()), ("0.99/1", frac(99, 100), one()), ("1.04/1.2", frac(104, 100), frac(12, 10))] {
+            v.push(Adm { name: format!("configure_emode({bl},own[{n}])"), tx: Tx::one(ix::configure_bank_emode(g, w.roles.emode, *bk, own, entries_of(&[(own, a, b)])), &[w.roles.emode]) });
+        }
         v.push(Adm { name: format!("configure_emode({bl},dup)"), tx: Tx::one(ix::configure_bank_emode(g, w.roles.emode, *bk, own, entries_of(&[(7, frac(1, 2), frac(6, 10)), (7, frac(1, 2), frac(6, 10))])), &[w.roles.emode]) });
         v.push(Adm { name: format!("configure_emode({bl},two)"), tx: Tx::one(ix::configure_bank_emode(g, w.roles.emode, *bk, own, entries_of(&[(7, frac(8, 10), frac(85, 100)), (if bl == "KA" { 6 } else { 5 }, frac(9, 10), frac(92, 100))])), &[w.roles.emode]) });
         v.push(Adm { name: format!("configure_emode({bl},clear)"), tx: Tx::one(ix::configure_bank_emode(g, w.roles.emode, *bk, own, entries_of(&[])), &[w.roles.emode]) });
